@@ -101,6 +101,7 @@ type rtTask struct {
 	err   error
 	done  bool
 	gate  chan struct{} // when set, the task blocks until the gate is closed
+	panic any           // when set, the task panics with this value after it has counted its start
 }
 
 func (t *rtTask) Start() {
@@ -110,6 +111,9 @@ func (t *rtTask) Start() {
 	}
 	if t.dur > 0 {
 		time.Sleep(t.dur)
+	}
+	if t.panic != nil {
+		panic(t.panic)
 	}
 }
 
@@ -204,6 +208,8 @@ func TestRealTimeStress(t *testing.T) {
 		timeout := rapid.SampledFrom([]time.Duration{100 * time.Microsecond, 400 * time.Microsecond, time.Millisecond}).Draw(t, "timeout")
 		producers := rapid.IntRange(2, 6).Draw(t, "producers")
 		taskDur := rapid.SampledFrom([]time.Duration{0, 50 * time.Microsecond, 300 * time.Microsecond, time.Millisecond}).Draw(t, "taskDuration")
+		// a long-lived lane sees many panicking tasks over its life time: hundreds per worker here
+		panicEvery := rapid.SampledFrom([]int{0, 0, 2, 5, 17}).Draw(t, "panicEvery")
 		ctx, cancel := context.WithCancel(context.Background())
 		tl := tasklane.New(ctx, lanes, queue)
 		tl.SetTimeout(timeout)
@@ -218,6 +224,9 @@ func TestRealTimeStress(t *testing.T) {
 				var mine []*rtTask
 				for i := 0; time.Now().Before(stop) && i < 4000; i++ {
 					tk := &rtTask{dur: taskDur}
+					if panicEvery > 0 && i%panicEvery == 0 {
+						tk.panic = fmt.Sprintf("task %d/%d panics", p, i)
+					}
 					tk.err = tl.PushTask(tk, (p+i)%lanes)
 					mine = append(mine, tk)
 				}
@@ -251,7 +260,7 @@ func TestRealTimeStress(t *testing.T) {
 			case tk.err != nil && c > 0:
 				t.Fatalf("real clock: task #%d was started although PushTask returned %v (lanes=%d queue=%d timeout=%s producers=%d taskDuration=%s)", i, tk.err, lanes, queue, timeout, producers, taskDur)
 			case tk.err == nil && c == 0:
-				t.Fatalf("real clock: accepted task #%d has not been started 8s after the last push, with a live context (lanes=%d queue=%d timeout=%s producers=%d)", i, lanes, queue, timeout, producers)
+				t.Fatalf("real clock: accepted task #%d has not been started 8s after the last push, with a live context (lanes=%d queue=%d timeout=%s producers=%d, every %d-th task panics)", i, lanes, queue, timeout, producers, panicEvery)
 			}
 			if tk.err == nil {
 				accepted++
